@@ -51,6 +51,11 @@ inductive FoldRel : Re → Re → Prop
   | quest {a a'} : FoldRel a a' → FoldRel (.quest a) (.quest a')
   | rep {a a'} (m : Nat) (mx : Option Nat) : FoldRel a a' → FoldRel (.rep a m mx) (.rep a' m mx)
   | grp {a a'} : FoldRel a a' → FoldRel (.grp a) (.grp a')
+  /-- (group P3) a class of one character, or of the two cases of a letter, compiled as the literal
+      `parser.push` makes of it, with whatever flag `parser.factor` left on it
+      (UF/Model/RegexQuirk.lean: `[aA]` merged under a case-sensitive `A` is the literal `A`) -/
+  | clsLit (neg : Bool) (rs : List (UInt8 × UInt8)) (f : Bool) (c : UInt8) (g f' : Bool) :
+      clsLit? neg rs = some (c, g) → FoldRel (.cls neg rs f) (.lit [c] f')
 
 theorem FoldRel.refl (r : Re) : FoldRel r r := by
   induction r with
@@ -89,6 +94,55 @@ theorem FoldRel.foldCase (r : Re) : FoldRel r r.foldCase := by
   | quest a ih => exact .quest ih
   | rep a m mx ih => exact .rep m mx ih
   | grp a ih => exact .grp ih
+
+/-- Rewriting the fold flags of leaves (`applyFlags`, the shape Go's tree of a case-sensitive
+    expression is given in) stays inside the relation, whatever the table. -/
+theorem FoldRel.applyFlags (m : FlagMap) (r : Re) : ∀ off, FoldRel r (Re.applyFlags m r off) := by
+  induction r with
+  | empty => intro _; exact .empty
+  | lit bs f =>
+    intro off
+    simp only [Re.applyFlags, fixLeaf]
+    split
+    · exact .lit bs f _
+    · exact .lit bs f f
+  | any => intro _; exact .any
+  | anyNL => intro _; exact .anyNL
+  | cls n rs f =>
+    intro off
+    simp only [Re.applyFlags, fixLeaf]
+    split
+    · rename_i fl c f0 _ hc
+      split
+      · exact .cls n rs f f
+      · exact .clsLit n rs f c f0 fl hc
+    · exact .cls n rs f f
+  | bol => intro _; exact .bol
+  | eol => intro _; exact .eol
+  | wordB => intro _; exact .wordB
+  | nwordB => intro _; exact .nwordB
+  | cat a b iha ihb => intro off; exact .cat (iha _) (ihb _)
+  | alt a b iha ihb => intro off; exact .alt (iha _) (ihb _)
+  | star a ih => intro off; exact .star (ih _)
+  | plus a ih => intro off; exact .plus (ih _)
+  | quest a ih => intro off; exact .quest (ih _)
+  | rep a mn mx ih => intro off; exact .rep mn mx (ih _)
+  | grp a ih => intro off; exact .grp (ih _)
+
+/-- Go's tree of a case-sensitive expression is the textbook tree up to the fold flags of its leaves. -/
+theorem FoldRel.goTree {p : Bytes} {t c : Re} (h : goTree p t = some c) : FoldRel t c := by
+  unfold Re.goTree at h
+  split at h
+  · cases h; exact FoldRel.refl t
+  · split at h
+    · cases h
+    · unfold quirkTree at h
+      cases hs : Q.simFrame (Q.size t + 1) t 0 with
+      | none => rw [hs] at h; cases h
+      | some m =>
+        rw [hs] at h
+        cases h
+        exact FoldRel.applyFlags m.1 t 0
 
 /-! ### What the items say about a match -/
 
@@ -253,5 +307,29 @@ theorem cls_sat (neg : Bool) (rs : List (UInt8 × UInt8)) (f : Bool) (b : UInt8)
     have : k' = clsKey neg rs := by simpa using hk'.symm
     subst this
     exact ⟨b'.toNat, hm, b'.toNat_lt, by rw [hb'', hl]⟩
+
+/-- `clsItem` (the item the shortcut model gives a class) and `clsLit?` (the literal the matching model
+    gives it) are the same table. -/
+theorem clsItem_of_clsLit {neg : Bool} {rs : List (UInt8 × UInt8)} {c : UInt8} {g : Bool}
+    (h : clsLit? neg rs = some (c, g)) : clsItem neg rs = .lit [c] g := by
+  unfold clsLit? at h
+  unfold clsItem
+  have hk : clsKey neg rs = clsBytes neg rs := rfl
+  rw [hk]
+  split at h
+  · rename_i x hx
+    rw [hx]
+    simp only [Option.some.injEq, Prod.mk.injEq] at h
+    obtain ⟨rfl, rfl⟩ := h
+    rfl
+  · rename_i a b hx
+    rw [hx]
+    split at h
+    · rename_i hc
+      simp only [Option.some.injEq, Prod.mk.injEq] at h
+      obtain ⟨rfl, rfl⟩ := h
+      simp only [hc, if_true]
+    · cases h
+  · cases h
 
 end UF.I2
